@@ -267,6 +267,33 @@ def check_reader(rep, prog, fn):
                     vecvars.add(v)
     mapvars |= vecvars
     fn._c10_vecvars = vecvars
+    # vertex tables outside the two idioms (map[i] = add_vertex / vec[i] = add_vertex): a container that receives the new vertex through
+    # a local or an append.  The table-dependent clauses are then undecided, not violated.
+    other_tables = set()
+    for av_ in add_vertices:
+        holder = av_.top_transparent().parent
+        lv_ = None
+        if holder is not None and holder.k == 'VarDecl':
+            lv_ = holder.decl_id
+        elif holder is not None and holder.k == 'BinaryOperator' and holder.op == '=':
+            lv_ = ex.var_of(holder.c[0])
+        for n in nodes:
+            if n.k == 'CXXMemberCallExpr' and n.callee and n.callee['name'] in ('push_back', 'emplace_back', 'insert', 'emplace') and n.args():
+                if (lv_ is not None and any(ex.refs_var(a, lv_) for a in n.args())) or any(a.is_ancestor_of(av_) for a in n.args()):
+                    ov_ = ex.var_of(n.object_arg())
+                    if ov_ is not None and ov_ not in mapvars:
+                        other_tables.add(ov_)
+            if n.k in ('BinaryOperator', 'CXXOperatorCallExpr') and n.op == '=' and lv_ is not None:
+                ops_ = n.c if n.k == 'BinaryOperator' else n.c[1:]
+                l_ = ops_[0].strip_all()
+                if len(ops_) == 2 and ex.var_of(ops_[1]) == lv_ and l_.k == 'CXXOperatorCallExpr' and l_.op == '[]' and len(l_.c) > 2:
+                    ov_ = ex.var_of(l_.c[1])
+                    if ov_ is not None and ov_ not in mapvars:
+                        other_tables.add(ov_)
+    if other_tables:
+        rep.undecided('R10d', add_vertices[0], fn, 'vertices and edge endpoints go through the vertex table',
+                      'the vertex table `%s` is filled in a way outside the recognised idioms (table[i] = add_vertex(g))' % prog.vars[sorted(other_tables)[0]]['name'])
+        return
 
     def missing_test(leaf, mvar, keyk):
         """formula atom 'missing' if leaf tests that keyk is absent from map mvar"""
@@ -301,6 +328,32 @@ def check_reader(rep, prog, fn):
     for n in nodes:
         if n.k == 'CXXMemberCallExpr' and n.callee['name'] == 'at' and ex.var_of(n.object_arg()) in mapvars:
             rep.ok('R10c', n, fn, 'vertex_map.at() throws for an undeclared vertex', '')
+    # reads through the iterator returned by find(key), in the reader or in a lookup lambda it defines
+    from lib import par
+    scopes = [fn]
+    for n in nodes:
+        if n.k == 'LambdaExpr':
+            scopes += [f for f in (prog.fn_of_fref(op) for op in n.j.get('lambda_ops', ())) if f is not None]
+    for sf in scopes:
+        for n in sf.walk():
+            if not (n.k == 'MemberExpr' and n.decl and n.decl.get('name') in ('second', 'first') and n.c):
+                continue
+            b = n.c[0].strip_all()
+            itv = ex.var_of(b.c[1]) if b.k == 'CXXOperatorCallExpr' and b.op == '->' and len(b.c) > 1 else ex.var_of(b)
+            if itv is None:
+                continue
+            d = ex.unique_def(sf, itv)
+            dd = d.strip_all() if d is not None else None
+            if dd is None or dd.k != 'CXXMemberCallExpr' or not dd.callee or dd.callee['name'] != 'find' or ex.var_of(dd.object_arg()) not in mapvars:
+                continue
+            mvar, keyk = ex.var_of(dd.object_arg()), ex.key(dd.args()[0])
+            whatc = 'the iterator of vertex_map.find(%s) is only dereferenced for a declared vertex' % dd.args()[0].text(20)
+            g = guards_formula(sf.cfg, n, lambda leaf: missing_test(leaf, mvar, keyk))
+            if implies(g, ex.f_not(ex.f_atom('missing'))) and 'missing' in ex.f_atoms(g):
+                rep.ok('R10c', n, sf, whatc, 'dominated by a test against end() whose "missing" branch leaves the function')
+            else:
+                rep.violation('R10c', n, sf, whatc, 'the end() iterator is dereferenced for an undeclared vertex instead of raising an error',
+                              key='R10c|%s|%s|deref' % (fn.g, prog.vars[mvar]['name']))
 
     # R10d vertices
     whatv = 'one vertex per declared node, named 1..n'
@@ -375,6 +428,7 @@ def check_reader(rep, prog, fn):
                       key='R10d|%s|edge-count' % fn.g)
     for ae in in_loop_edges:
         problems = []
+        unrec = []
         if ae.enclosing('ForStmt', 'DoStmt') is not None and line_loop.is_ancestor_of(ae.enclosing('ForStmt', 'DoStmt')):
             problems.append('add_edge sits in an inner loop')
         inner = ae.enclosing('WhileStmt')
@@ -423,7 +477,9 @@ def check_reader(rep, prog, fn):
         # endpoints: trace each argument to a vertex-map read keyed by the i-th integer of the sscanf
         for pos, want in ((0, ints[0] if len(ints) > 0 else None), (1, ints[1] if len(ints) > 1 else None)):
             src = trace_map_key(prog, fn, ae.args()[pos], mapvars)
-            if src is None:
+            if src is None and any(helper_call(prog, x)[0] is not None for x in ae.args()[pos].walk()):
+                unrec.append('endpoint %d of add_edge comes from the helper `%s`, which is outside the lookup idioms' % (pos + 1, ae.args()[pos].text(40)))
+            elif src is None:
                 problems.append('endpoint %d of add_edge is not read from the vertex map' % (pos + 1))
             elif want is None or src != ('v', want):
                 problems.append('endpoint %d of add_edge is looked up with the wrong key' % (pos + 1))
@@ -459,6 +515,8 @@ def check_reader(rep, prog, fn):
             problems.append('the parsed weight is not stored for the descriptor returned by add_edge')
         if problems:
             rep.violation('R10d', ae, fn, whate, '; '.join(problems), key='R10d|%s|edges' % fn.g)
+        elif unrec:
+            rep.undecided('R10d', ae, fn, whate, '; '.join(unrec))
         else:
             rep.ok('R10d', ae, fn, whate, 'add_edge(vertex_map[rs], vertex_map[rt]); weight[e] = rw under buffer[0] in {a,e}')
 
@@ -623,7 +681,29 @@ def trace_map_key(prog, fn, arg, mapvars, depth=0):
         d = ex.unique_def(fn, v)
         if d is not None:
             return trace_map_key(prog, fn, d, mapvars, depth + 1)
+    # a lookup helper (local lambda or repo function) of one parameter: every return must trace to map[param]
+    hf, hargs = helper_call(prog, s)
+    if hf is not None and len(hf.param_ids) == 1 and len(hargs) == 1:
+        keys = set()
+        for r in ex.returns_of(hf):
+            keys.add(trace_map_key(prog, hf, r.c[0], mapvars, depth + 1) if r.c else None)
+        if keys == {('v', hf.param_ids[0])}:
+            return ex.key(hargs[0])
     return None
+
+
+def helper_call(prog, s):
+    """(function, argument nodes) when s calls a local lambda or a repo function with a body"""
+    from lib import par
+    if s.k == 'CXXOperatorCallExpr' and s.op == '()' and len(s.c) >= 2:
+        fs, _ = par.lambda_functions(prog, s.c[1])
+        if len(fs) == 1:
+            return fs[0], s.c[2:]
+    if s.k in ('CallExpr', 'CXXMemberCallExpr') and s.callee and s.callee.get('in_repo') and s.callee_id is not None:
+        f = prog.fn_of_fref(s.callee_id)
+        if f is not None and f.body is not None:
+            return f, s.args()
+    return None, None
 
 
 # ======================================================================================== validators
